@@ -366,6 +366,28 @@ func cases(thorough bool) []Case {
 func Run(c *vk.Ctx) {
 	debug.SetPanicOnFault(true)
 	if c.Replay != "" {
+		var gc GenCase
+		c.LoadReplay(&gc)
+		if gc.Generic {
+			f := runGeneric(gc)
+			fmt.Printf("replay generic receiver %+v\nresult: %s\n", gc, f)
+			if f != "" {
+				c.Violate("replay", f, gc)
+			}
+			c.Finish()
+			return
+		}
+		var rc RetargetCase
+		c.LoadReplay(&rc)
+		if rc.Retarget {
+			f := runRetarget(rc.Names)
+			fmt.Printf("replay retarget %v\nresult: %s\n", rc.Names, f)
+			if f != "" {
+				c.Violate("replay", f, rc)
+			}
+			c.Finish()
+			return
+		}
 		var mc MixedCase
 		c.LoadReplay(&mc)
 		if mc.Mixed {
@@ -450,6 +472,7 @@ func Run(c *vk.Ctx) {
 		c.Violate(key(&cs, fl), fl.desc, cs)
 	}
 	runMixedAll(c, int64(len(all)))
+	extraCases(c, int64(len(all))+1000)
 	c.Res.Extra["targets"] = t6.NMethods
 	c.Res.Extra["probes_per_phase"] = t6.NProbes
 	c.Res.Extra["cases"] = len(all)
